@@ -33,7 +33,7 @@ Proof.
 Qed.
 
 Lemma modcounter_inv w m h : 1 <= w -> 1 <= m <= 2 ^ w ->
-  mod_rel w m (run (modcounter_m w 1 m) (cell0 0) h) (run (modcounter_spec m) 0 h).
+  mod_rel w m (run (modcounter_m w 1 m) cell_zero h) (run (modcounter_spec m) 0 h).
 Proof.
   intros Hw Hm. apply (run_sim (modcounter_m w 1 m) (modcounter_spec m) (mod_rel w m)).
   - intros; apply modcounter_step_sim; auto.
@@ -42,7 +42,7 @@ Qed.
 
 (* q follows the mod-m counter, stays below m, and carry is high exactly in state m-1 *)
 Lemma modcounter_refines w m h : 1 <= w -> 1 <= m <= 2 ^ w ->
-  let c := run (modcounter_m w 1 m) (cell0 0) h in
+  let c := run (modcounter_m w 1 m) cell_zero h in
   let s := run (modcounter_spec m) 0 h in
   cell_q c = s /\ 0 <= s < m /\ modcounter_carry w 1 m c = modcounter_carry_spec m s.
 Proof.
@@ -52,7 +52,7 @@ Qed.
 
 (* the guard m <= 2^w is needed: a 2-bit ModuloCounter(mod=6) compares q with 5 mod 4 = 1 and counts 0,1,0,1,... *)
 Lemma modcounter_guard_needed :
-  cell_q (run (modcounter_m 2 1 6) (cell0 0) [(0, 1); (0, 1)]) <> run (modcounter_spec 6) 0 [(0, 1); (0, 1)].
+  cell_q (run (modcounter_m 2 1 6) cell_zero [(0, 1); (0, 1)]) <> run (modcounter_spec 6) 0 [(0, 1); (0, 1)].
 Proof. vm_compute. discriminate. Qed.
 
 (* ------------------------------------------------------------------ ClockDivider *)
@@ -106,7 +106,7 @@ Proof.
   apply (run_sim_guard (clkdiv_step n qw wclk hr) (count_step hr) (clkdiv_rel n qw) (fun r => r = 0 \/ r = 1)); auto.
   - intros; apply clkdiv_step_sim; auto.
   - unfold clkdiv_rel, clkdiv_init, mod_rel, cnt_rel, treg_rel. cbn [fst snd].
-    rewrite Z.mod_0_l, Z.div_0_l, Z.mod_0_l by lia. unfold cell_q, cell_value, cell0. cbn [fst snd Reg_s_value].
+    rewrite Z.mod_0_l, Z.div_0_l, Z.mod_0_l by lia. unfold cell_q, cell_value, cell_zero. cbn [fst snd Reg_s_value].
     pose proof (pow2_pos qw); lia.
 Qed.
 
